@@ -12,7 +12,7 @@ Rule analyses add their own keys.
 from .cir import strip, strip_parens, const_int, callee, path, text
 from .common import AnalysisError
 
-CAP = 256
+CAP = 2048
 
 
 def sget(st, key, default=None):
@@ -74,6 +74,8 @@ class Analysis(object):
         if t is None:
             return False
         t = t.strip()
+        while t.startswith(("const ", "volatile ", "register ")):
+            t = t.split(" ", 1)[1].strip()
         return t in ("int", "long", "unsigned int", "char", "Py_ssize_t",
                      "long long", "unsigned long", "unsigned long long", "short") or t.endswith("*")
 
@@ -193,7 +195,43 @@ class Analysis(object):
             return sget(st, "f:" + e.n)
         if e.k == "UnaryOperator" and e.v == "&":
             return "NN"
+        nm = self._named_test(e)
+        if nm is not None:
+            cur = sget(st, "f:" + nm[0])
+            if cur is not None:
+                zero = (cur == 0)
+                return int(zero if nm[1] == "eq0" else not zero)
         return None
+
+    def _named_test(self, e):
+        """(variable, 'eq0' | 'ne0') when e is `v == 0/NULL`, `v != 0/NULL` or `!v`
+        for a tracked variable: the value a local naming that test gets"""
+        e = strip(e)
+        if e is None:
+            return None
+        if e.k == "UnaryOperator" and e.v == "!":
+            a = strip(e.kids[0])
+            if a is not None and a.k == "DeclRefExpr" and a.rk in ("VarDecl", "ParmVarDecl") and self.is_flag_var(a.n):
+                return (a.n, "eq0")
+        if e.k == "BinaryOperator" and e.v in ("==", "!="):
+            for x, y in ((e.kids[0], e.kids[1]), (e.kids[1], e.kids[0])):
+                a = strip(x)
+                if a is not None and a.k == "DeclRefExpr" and a.rk in ("VarDecl", "ParmVarDecl") \
+                        and self.is_flag_var(a.n) and const_int(y) == 0:
+                    return (a.n, "eq0" if e.v == "==" else "ne0")
+        return None
+
+    def _note_named(self, st, name, rhs):
+        """remember that `name` names a test of another variable (or forget it)"""
+        st = sdel(st, "n:" + name)
+        # a reassigned variable invalidates the tests that mention it
+        for k, v in list(st):
+            if k.startswith("n:") and v[0] == name:
+                st = sdel(st, k)
+        nm = self._named_test(rhs) if rhs is not None else None
+        if nm is not None and nm[0] != name:
+            st = sset(st, "n:" + name, nm)
+        return st
 
     def flags_stmt(self, node, st):
         e = node.e
@@ -204,6 +242,7 @@ class Analysis(object):
                 if v.k == "VarDecl" and self.is_flag_var(v.n):
                     init = [c for c in v.kids if c.k not in ("Absent",)]
                     st = sdel(st, "f:" + v.n)
+                    st = self._note_named(st, v.n, init[-1] if init else None)
                     if init:
                         st = self._kill_calls(init[-1], st)
                         val = self.flag_value_of(init[-1], st)
@@ -216,6 +255,7 @@ class Analysis(object):
                 lhs = strip(n.kids[0])
                 if lhs is not None and lhs.k == "DeclRefExpr" and self.is_flag_var(lhs.n):
                     val = self.flag_value_of(n.kids[1], st)
+                    st = self._note_named(st, lhs.n, n.kids[1])
                     st = sset(st, "f:" + lhs.n, val)
             elif n.k == "CompoundAssignOperator" or (
                     n.k == "UnaryOperator" and n.v in ("++", "--", "post++", "post--")):
@@ -247,10 +287,18 @@ class Analysis(object):
             if cur is not None:
                 truth = (cur == "NN") or (cur != "NN" and cur != 0)
                 return st if truth == want else None
-            if not want:
-                return sset(st, "f:" + e.n, 0)
-            # known non-NULL pointer / non-zero integer
-            return sset(st, "f:" + e.n, "NN")
+            st = sset(st, "f:" + e.n, "NN" if want else 0)
+            nm = sget(st, "n:" + e.n)
+            if nm is not None:
+                # the variable names a test of another one: that one is decided too
+                other_zero = (nm[1] == "eq0") == want
+                cur2 = sget(st, "f:" + nm[0])
+                if cur2 is not None:
+                    if (cur2 == 0) != other_zero:
+                        return None
+                else:
+                    st = sset(st, "f:" + nm[0], 0 if other_zero else "NN")
+            return st
         if e.k == "CallExpr":
             cv = self.const_call(e, st)
             if cv is not None:
